@@ -2,11 +2,13 @@
 SPECIFICATION MCSpec
 CONSTANTS
   CacheMerged = TRUE
+  OwnUnion = TRUE
   MaxRewrites = 1
   MaxNodes = 3
   CPUs = {0, 1, 2}
   LimitVals = {1, 2, 3, 99}
   Kinds = {"cpuset", "limit"}
+  Algos = {"leveled", "suppress"}
   CacheMode = "subsets"
 INVARIANT V
 INVARIANT TNAtEnd
